@@ -19,9 +19,9 @@ REAL_REPLAY = False
 STUBS = []
 ASSUMPTIONS = ['units have variable-size port lists (1-3 inlets/outlets arise from the graph); a unit without inlet gets a feed, without outlet a product',
                'set iteration order inside thermosteam depends on object addresses: a violation is replayed in a fresh process and reported only if it reproduces there']
-OUTSIDE = ['more than 4 units in every labelling (quick) / 5 (thorough); 6 units only in topological labellings with at most 2 (quick) / 3 (thorough) ports per side', 'more than 6 units', 'more than 2 back edges', 'auxiliary units, interaction units, systems']
+OUTSIDE = ['more than 4 units in every labelling (quick) / 5 (thorough); 6 units only in topological labellings with at most 2 (quick) / 3 (thorough) ports per side', 'more than 6 units', 'more than 3 back edges', 'auxiliary units, interaction units, systems']
 BOUNDS = {'quick': dict(units='2..4 (+ 6: topologically labelled DAGs, <= 7 edges, <= 2 ports per side, rotations + reversal of the unit list)', orders='all permutations', back_edges='0..1 (2 back edges on 3 units)'),
-          'thorough': dict(units='2..5 (5: DAGs with <= 6 edges, rotations of the unit list)', orders='all permutations (<=4 units)', back_edges='0..2')}
+          'thorough': dict(units='2..5 (5: every labelled DAG, rotations + reversal of the unit list; with a back edge: <= 6 edges) + 6 (topological labellings, <= 3 ports per side)', orders='all permutations (<=4 units)', back_edges='0..3 (3: rotations + reversal)')}
 _cls = {}
 _graphs = {}
 
@@ -250,7 +250,7 @@ def groups(tier):
     # enumerate the flowsheets once, before the worker processes are forked
     dags(2), dags(3), dags(4), dags(6, 7 if q else None, 2 if q else 3, True)
     if not q:
-        dags(5, 6)
+        dags(5, 6), dags(5, None)
     g = {
         'acyclic': (g_acyclic([2, 3, 4]), dict(max_paths=5000000, witnesses=4)),
         'cyclic-1-back-edge': (g_cyclic([2, 3] if q else [2, 3, 4], [1]), dict(max_paths=5000000, witnesses=4)),
@@ -261,5 +261,7 @@ def groups(tier):
     g['acyclic-6-units'] = (g_acyclic([6], all_perms=False, max_edges=7 if q else None, max_deg=2 if q else 3, canonical=True),
                             dict(max_paths=20000000, witnesses=4))
     if not q:
-        g['acyclic-5-units'] = (g_acyclic([5], all_perms=False, max_edges=6), dict(max_paths=20000000, witnesses=4))
+        g['acyclic-5-units'] = (g_acyclic([5], all_perms=False, max_edges=None), dict(max_paths=20000000, witnesses=4))
+        g['cyclic-1-back-edge-5-units'] = (g_cyclic([5], [1], all_perms=False, max_edges=6), dict(max_paths=20000000, witnesses=4))
+        g['cyclic-3-back-edges'] = (g_cyclic([3, 4], [3], all_perms=False), dict(max_paths=20000000, witnesses=4))
     return g
